@@ -59,6 +59,8 @@ type exch struct {
 	Redirect []int  `json:"redirect,omitempty"`  // statuses of the redirect hops in front of the final response
 	DelayMs  int    `json:"pre_read_delay_ms,omitempty"` // slow consumer: wait before the first body read
 	Upload   int    `json:"upload_bytes,omitempty"`
+	Lim      int    `json:"max_response_header_bytes,omitempty"` // Transport.MaxResponseHeaderBytes of the client
+	Dump     bool   `json:"dump,omitempty"`                      // Request.EnableDump (response header lines go through the dumping line reader)
 	Cut      bool   `json:"cut,omitempty"`    // the peer closes the connection after CutAt bytes of the response
 	CutAt    int    `json:"cut_at,omitempty"`
 	grp      *h2group      // member of a group of exchanges in flight on one HTTP/2 connection
@@ -194,6 +196,9 @@ func perform(c *req.Client, x *exch, url string, outDir string) (s seen) {
 		if x.Upload > 0 {
 			r.SetBodyBytes(bytes.Repeat([]byte("u"), x.Upload))
 		}
+		if x.Dump {
+			r.EnableDump()
+		}
 		resp, err := r.Send(x.Method, url)
 		if err != nil {
 			s.CallErr = err.Error()
@@ -261,6 +266,11 @@ func perform(c *req.Client, x *exch, url string, outDir string) (s seen) {
 }
 
 func (x *exch) runH1(srv *wire.Server, c *req.Client, outDir string) {
+	if x.Lim > 0 { // own client with that header budget
+		c = newH1Client(srv.Addr(), false)
+		c.GetTransport().SetMaxResponseHeaderBytes(int64(x.Lim))
+		defer c.GetTransport().CloseIdleConnections()
+	}
 	id := nextID()
 	cut := -1
 	if x.H1.Framing == wire.FrClose || x.H1.Close || x.Upgrade {
@@ -373,7 +383,11 @@ func (x *exch) coqH1() string {
 	if x.Cut {
 		cut = fmt.Sprintf("(Some %d%%N)", x.CutAt)
 	}
-	pre := fmt.Sprintf("(H1Case %s %s %s %s %s %s %s", coqLit([]byte(x.Method)), x.A.coqBody(), coqPieces(x.pieces), cut, hasBody, coqMode[x.Mode], coqPat(x.Pat))
+	lim := "None"
+	if x.Lim > 0 {
+		lim = fmt.Sprintf("(Some %d%%N)", x.Lim)
+	}
+	pre := fmt.Sprintf("(H1Case %s %s %s %s %s %s %s %s", coqLit([]byte(x.Method)), x.A.coqBody(), coqPieces(x.pieces), cut, lim, hasBody, coqMode[x.Mode], coqPat(x.Pat))
 	if s.NoResp {
 		return pre + " true 0%Z [] [] 0%Z [] {| x_err := true; x_bytes := None; x_stream := Lit []; x_stream_end := None; x_again := Lit []; x_again_ok := true; x_out := Lit [] |} [])"
 	}
@@ -386,7 +400,7 @@ func (x *exch) key() string {
 		b, _ := json.Marshal(x)
 		return fmt.Sprintf("%s|%s|%x", x.Proto, b, x.A.Body)
 	}
-	return fmt.Sprintf("%s|%s|%s|%v|%s|%v|%x", x.Proto, x.Method, x.Mode, x.Pat, x.SegK, x.CutAt, x.wire)
+	return fmt.Sprintf("%s|%s|%s|%v|%s|%v|%v|%v|%x", x.Proto, x.Method, x.Mode, x.Pat, x.SegK, x.CutAt, x.Lim, x.Dump, x.wire)
 }
 
 func (x *exch) sigBase() string {
